@@ -652,13 +652,33 @@ pub mod vpipe {
     }
 
     #[derive(Clone)]
-    struct Shared {
-        log: Arc<Mutex<Vec<LogEntry>>>,
-        start: Instant,
+    pub(crate) struct Shared {
+        pub(crate) log: Arc<Mutex<Vec<LogEntry>>>,
+        pub(crate) start: Instant,
     }
 
     impl Shared {
-        fn push(&self, dir: u8, call: String, resp: String) {
+        pub(crate) fn new() -> Self {
+            Shared { log: Default::default(), start: Instant::now() }
+        }
+
+        pub(crate) fn source(&self, dir: u8, script: SrcScript) -> Box<dyn pipe::Source> {
+            Box::new(VSource {
+                shared: self.clone(),
+                dir,
+                script,
+                idx: 0,
+                ready_at: None,
+                last_delivery: Instant::now(),
+                consumes: 0,
+            })
+        }
+
+        pub(crate) fn sink(&self, dir: u8, script: SinkScript) -> Box<dyn pipe::Sink> {
+            Box::new(VSink { shared: self.clone(), dir, script, writes: 0, waits: 0, wait_ready_at: None })
+        }
+
+        pub(crate) fn push(&self, dir: u8, call: String, resp: String) {
             let t_ms = Instant::now().duration_since(self.start).as_millis() as u64;
             self.log.lock().unwrap().push(LogEntry { t_ms, dir, call, resp });
         }
@@ -1813,6 +1833,188 @@ pub mod vlive {
     pub fn spawn_metrics_listener(core: &Core) -> tokio::task::JoinHandle<io::Result<()>> {
         let context = core.verif_context();
         tokio::spawn(async move { metrics::listen(context, log_utils::IdChain::empty()).await })
+    }
+}
+
+// ---------------------------------------------------------------------------------------
+// Plain-HTTP forwarding (C17): `http_forwarded_stream::into_forwarded` over a mirror stream, its
+// source and sink driven by the real `DuplexPipe` against a scripted origin and a scripted
+// client-side sink
+
+pub mod vfwd {
+    use super::vpipe::{LogEntry, Shared, SinkScript, SrcScript};
+    use crate::{http_codec, http_forwarded_stream, log_utils, pipe};
+    use std::io;
+    use std::net::IpAddr;
+    use std::time::Duration;
+    use tokio::time::Instant;
+
+    #[derive(Debug, Clone)]
+    pub struct VFwdRequest {
+        pub method: String,
+        /// absolute URI
+        pub uri: String,
+        /// 10 = HTTP/1.0, 11 = HTTP/1.1, 2 = HTTP/2, 3 = HTTP/3 (what the client speaks)
+        pub version: u8,
+        pub headers: Vec<(String, Vec<u8>)>,
+    }
+
+    struct MReq {
+        parts: http_codec::RequestHeaders,
+        body: SrcScript,
+        shared: Shared,
+    }
+
+    struct MResp {
+        shared: Shared,
+        sink: SinkScript,
+        http1: bool,
+    }
+
+    struct MStream {
+        req: MReq,
+        resp: MResp,
+    }
+
+    struct MResponded {
+        shared: Shared,
+        sink: SinkScript,
+    }
+
+    impl http_codec::Stream for MStream {
+        fn id(&self) -> log_utils::IdChain<u64> {
+            log_utils::IdChain::empty()
+        }
+        fn request(&self) -> &dyn http_codec::PendingRequest {
+            &self.req
+        }
+        fn split(self: Box<Self>) -> (Box<dyn http_codec::PendingRequest>, Box<dyn http_codec::PendingRespond>) {
+            (Box::new(self.req), Box::new(self.resp))
+        }
+    }
+
+    impl http_codec::PendingRequest for MReq {
+        fn id(&self) -> log_utils::IdChain<u64> {
+            log_utils::IdChain::empty()
+        }
+        fn request(&self) -> &http_codec::RequestHeaders {
+            &self.parts
+        }
+        fn client_address(&self) -> io::Result<IpAddr> {
+            Ok([198, 51, 100, 7].into())
+        }
+        fn finalize(self: Box<Self>) -> Box<dyn pipe::Source> {
+            self.shared.source(2, self.body)
+        }
+    }
+
+    fn head_str(r: &http_codec::ResponseHeaders) -> String {
+        let hs: Vec<String> = r
+            .headers
+            .iter()
+            .map(|(n, v)| format!("{}={}", n.as_str(), v.as_bytes().iter().map(|b| format!("{:02x}", b)).collect::<String>()))
+            .collect();
+        format!("{}:{:?}:{}", r.status.as_u16(), r.version, hs.join(","))
+    }
+
+    impl http_codec::PendingRespond for MResp {
+        fn id(&self) -> log_utils::IdChain<u64> {
+            log_utils::IdChain::empty()
+        }
+
+        /// as the codecs do: HTTP/1.1 writes interim responses out, HTTP/2 and HTTP/3 keep the
+        /// trait's default (ignored)
+        fn send_intermediate_response(&self, response: http_codec::ResponseHeaders) -> io::Result<()> {
+            if self.http1 {
+                self.shared.push(3, "interim".into(), head_str(&response));
+            }
+            Ok(())
+        }
+
+        fn send_response(
+            self: Box<Self>,
+            response: http_codec::ResponseHeaders,
+            eof: bool,
+        ) -> io::Result<Box<dyn http_codec::RespondedStreamSink>> {
+            self.shared.push(3, format!("head:eof={}", eof as u8), head_str(&response));
+            Ok(Box::new(MResponded { shared: self.shared.clone(), sink: self.sink.clone() }))
+        }
+    }
+
+    impl http_codec::RespondedStreamSink for MResponded {
+        fn into_pipe_sink(self: Box<Self>) -> Box<dyn pipe::Sink> {
+            self.shared.sink(3, self.sink)
+        }
+        fn into_datagram_sink(self: Box<Self>) -> Box<dyn http_codec::DroppingSink> {
+            unreachable!()
+        }
+    }
+
+    pub struct FwdRun {
+        /// `into_forwarded` accepted the request
+        pub built: bool,
+        /// `ok` | `timedout` | `err` (of `DuplexPipe::exchange`)
+        pub result: String,
+        pub end_ms: u64,
+        /// dir 0: origin-side sink (the forwarded request), dir 1: origin-side source, dir 2: the
+        /// client's request body, dir 3: what the client is sent (interim, head, body writes, eof)
+        pub log: Vec<LogEntry>,
+    }
+
+    /// One forwarded exchange: the request head + scripted request body go through the real
+    /// forwarded source into a scripted origin sink; the scripted origin byte stream goes through
+    /// the real forwarded sink into a scripted client sink; the real `DuplexPipe` drives both.
+    pub async fn run(
+        request: VFwdRequest,
+        request_body: SrcScript,
+        origin_sink: SinkScript,
+        origin_stream: SrcScript,
+        client_sink: SinkScript,
+        timeout_ms: u64,
+    ) -> FwdRun {
+        let shared = Shared::new();
+        let version = match request.version {
+            10 => http::Version::HTTP_10,
+            11 => http::Version::HTTP_11,
+            2 => http::Version::HTTP_2,
+            _ => http::Version::HTTP_3,
+        };
+        let mut b = http::Request::builder().method(request.method.as_str()).uri(request.uri.as_str()).version(version);
+        for (n, v) in &request.headers {
+            if let Ok(v) = http::HeaderValue::from_bytes(v) {
+                b = b.header(n.as_str(), v);
+            }
+        }
+        let parts = match b.body(()) {
+            Ok(x) => x.into_parts().0,
+            Err(_) => return FwdRun { built: false, result: "bad-request-parts".into(), end_ms: 0, log: vec![] },
+        };
+        let stream = Box::new(MStream {
+            req: MReq { parts, body: request_body, shared: shared.clone() },
+            resp: MResp { shared: shared.clone(), sink: client_sink, http1: request.version == 10 || request.version == 11 },
+        });
+        let (fsource, fsink) = match http_forwarded_stream::into_forwarded(stream) {
+            Ok(x) => x,
+            Err(_) => {
+                let log = shared.log.lock().unwrap().clone();
+                return FwdRun { built: false, result: "refused".into(), end_ms: 0, log };
+            }
+        };
+        let mut pipe = pipe::DuplexPipe::new(
+            (pipe::SimplexDirection::Outgoing, fsource, shared.sink(0, origin_sink)),
+            (pipe::SimplexDirection::Incoming, shared.source(1, origin_stream), fsink),
+            |_, _| (),
+        );
+        let r = pipe.exchange(Duration::from_millis(timeout_ms)).await;
+        let end_ms = Instant::now().duration_since(shared.start).as_millis() as u64;
+        drop(pipe);
+        let result = match r {
+            Ok(()) => "ok".to_string(),
+            Err(e) if e.kind() == io::ErrorKind::TimedOut => "timedout".to_string(),
+            Err(_) => "err".to_string(),
+        };
+        let log = shared.log.lock().unwrap().clone();
+        FwdRun { built: true, result, end_ms, log }
     }
 }
 
